@@ -1040,7 +1040,11 @@ impl CompositionGraph {
             })
             .collect::<Vec<_>>()
         {
-            self.remove_node(node);
+            // A dependent may already have been removed through another
+            // dependent (e.g. a diamond of type dependencies)
+            if self.graph.contains_node(node.0) {
+                self.remove_node(node);
+            }
         }
 
         // Remove the node from the graph
